@@ -30,7 +30,6 @@ NoneAlgs  == {"none", "None"}
 Algs      == HmacAlgs \cup PkAlgs \cup NoneAlgs \cup {"bogus"}
 JKeys     == {"cur", "prev", "other", "empty"}  \* which secret the MAC was made with
 TimeCls   == {"absent", "past", "now", "future", "str"}   \* value of exp / nbf / iat relative to the clock
-ClaimSets == {"none", "A", "B"}                 \* the non-standard claims carried
 Shapes    == {"ok",
               \* no token in the request
               "missing", "emptyHdr", "bearerOnly",
@@ -41,6 +40,34 @@ Shapes    == {"ok",
               \* tampered after signing
               "sigFlipBit", "sigFlipLast", "sigTrunc", "sigExtend", "sigEmpty",
               "payloadSwapped", "expSwapped", "hdrSwapped"}
+
+\* -- claims --------------------------------------------------------------
+\* The registered claim names (RFC 7519, 4.1) are exactly these seven strings.  JSON member names
+\* are case-sensitive and compared as they are, so every other name -- "Sub", "EXP", "iss ",
+\* "issuer", "su", "" -- names a private (non-standard) claim, and the handler must see it.
+RegisteredNames == {"aud", "exp", "jti", "iat", "iss", "nbf", "sub"}
+\* A claim set is characterised by how the names of its private claims relate to the registered
+\* names (the driver concretises each class with seeded random members and values):
+\*   none      no private claim (registered ones only)
+\*   A, B      ordinary names (uid, role, groups, ...), values of every JSON type
+\*   caseVar   names that differ from a registered name only in letter case (Sub, ISS, eXp, Jti)
+\*   affix     a registered name with something before / after it, or a proper prefix of one
+\*             (sub_, _exp, "iss ", subject, issuer, expires, su, jt)
+\*   odd       the empty name, names with blanks, punctuation, digits only, JSON keywords, a long name
+\*   hdrField  names from the token header and the request's own vocabulary (alg, typ, kid, Authorization)
+\*   mixed     members of all the classes at once, next to all seven registered claims
+NameClasses == {"plain", "caseVar", "affix", "odd", "hdrField"}
+ClaimSets == {"none", "A", "B", "caseVar", "affix", "odd", "hdrField", "mixed"}
+ClassesOf(c) == CASE c = "none" -> {}
+                  [] c \in {"A", "B"} -> {"plain"}
+                  [] c = "mixed" -> NameClasses
+                  [] OTHER -> {c, "plain"}
+\* claims as sequences of <<name, JSON text of the value>>, sorted by name
+Visible(claims) == SelectSeq(claims, LAMBDA p : p[1] \notin RegisteredNames)
+\* "on success the non-standard claims are what the handler sees": `sent` is every claim of the
+\* payload that arrived, `seen` every claim the handler finds in its context (under any of the
+\* names sent, the registered names and a fixed vocabulary)
+ClaimsSeen(sent, seen) == Visible(seen) = Visible(sent)
 
 JwtTok == [alg : Algs, key : JKeys, exp : TimeCls, nbf : TimeCls, iat : TimeCls,
            shape : Shapes, claims : ClaimSets]
@@ -165,19 +192,24 @@ EncTos   == {"A", "B", "other", "junk", "notB64", "empty"}   \* which RSA key th
 SecretWf == {"ok", "badKey", "noTime", "noType", "badType"}
 SigForms == {"ok", "flipBit", "caseSwap", "trunc", "extend", "empty", "otherKey"}
 Lens     == {0, 1, 15, 16, 17, 4096}
+\* how the length of the request body reaches the server: announced in a Content-Length header
+\* (http.Request.ContentLength = the length), or not announced (Transfer-Encoding: chunked,
+\* http.Request.ContentLength = -1: the body ends where the stream ends)
+Xfers    == {"sized", "chunked"}
 
 CsReq == [hdr : {"present", "missing"}, fp : Fps, encTo : EncTos, swf : SecretWf, type : {"plain", "enc"},
           ts : TsVals, method : Methods, path : Paths, query : Queries, body : Bodies,           \* the request
           sform : SigForms, sts : TsVals, smethod : Methods, spath : Paths, squery : Queries,
           sbody : Bodies,                                                                        \* what was signed
-          plen : Lens, rlen : Lens, chunks : {1, 2}]
+          plen : Lens, rlen : Lens, chunks : {1, 2}, xfer : Xfers]
 
 Signed(r) == <<r.sts, r.smethod, r.spath, r.squery, r.sbody>>
 Actual(r) == <<r.ts,  r.method,  r.path,  r.query,  r.body>>
 
 \* the signature is the HMAC, under the key inside a secret that is encrypted to the configured
 \* RSA key the fingerprint names, of exactly the request's timestamp, method, path, query and
-\* body digest, and the timestamp is within tolerance
+\* body digest, and the timestamp is within tolerance.  The body is the bytes the handler can
+\* read, however their length was announced: r.xfer does not occur in this definition.
 CsPass(r) ==
   /\ r.hdr = "present"
   /\ r.fp \in {"A", "B"} /\ r.encTo = r.fp
@@ -224,6 +256,19 @@ CsReqAct(r, ran, hstatus, status, o) ==
 KF_CsUnverifiedMethod(r, ran, status, o) ==
   /\ r.method \notin VerifiedMethods
   /\ ran
+  /\ o.hbody = o.wire /\ o.rraw = o.rpay
+  /\ resp' = [gate |-> "cs", calls |-> 1, status |-> status]
+  /\ UNCHANGED <<prevCfg, cnt, now, resetAt>>
+
+\* Known finding: a correctly signed request of type "encrypted" whose body length is not
+\* announced (chunked) is verified (the signature covers the body) but then handed to the
+\* protected handler as it is: the handler reads the ciphertext and its output goes out as written
+\* (contentsecurityhandler.go decrypts only `if r.ContentLength > 0`; cryptionhandler.go likewise).
+\* Enabled only for exactly that.
+ChunkedCipher(r) == r.xfer = "chunked" /\ HasCipherBody(r) /\ CsVerdict(r) # "no"
+KF_CsChunkedCipher(r, ran, hstatus, status, o) ==
+  /\ ChunkedCipher(r)
+  /\ ran /\ status = hstatus
   /\ o.hbody = o.wire /\ o.rraw = o.rpay
   /\ resp' = [gate |-> "cs", calls |-> 1, status |-> status]
   /\ UNCHANGED <<prevCfg, cnt, now, resetAt>>
